@@ -60,51 +60,142 @@ func safeTypeName(t types.Type) (string, bool) {
 	return "", false
 }
 
-// indirectArg0: v == safehtmlutil.Indirect(args[0]) for the variadic parameter.
-func indirectArg0(fn *ssa.Function, v ssa.Value) bool {
-	return indirectArg0D(fn, v, 0)
+// sanFrame: a sanitizer, or a helper of it, with the roles its values play: the variadic argument
+// list ("args"), Indirect(args[0]) ("arg0i"), Stringify(args...) ("str").
+type sanFrame struct {
+	fn    *ssa.Function
+	role  map[ssa.Value]string
+	top   bool
+	depth int
 }
 
-func indirectArg0D(fn *ssa.Function, v ssa.Value, depth int) bool {
-	c, ok := isCallTo(v, pkgUtil+".Indirect")
-	if !ok {
-		// a helper of the package applied to the variadic parameter, each of whose returns is nil
-		// (nothing to assert on) or Indirect(its parameter[0])
-		if call, isCall := v.(*ssa.Call); isCall && depth < 3 && len(fn.Params) > 0 {
-			if h := staticCallee(call.Common()); h != nil && h.Pkg == fn.Pkg && h.Blocks != nil && len(h.Params) == 1 &&
-				len(call.Common().Args) == 1 && call.Common().Args[0] == ssa.Value(fn.Params[len(fn.Params)-1]) && h.Signature.Results().Len() == 1 {
-				n := 0
-				for _, ret := range Returns(h) {
-					rv := ret.Results[0]
-					if k, isK := rv.(*ssa.Const); isK && k.Value == nil {
-						continue
-					}
-					if !indirectArg0D(h, rv, depth+1) {
-						return false
-					}
-					n++
-				}
-				return n > 0
-			}
+func (fr *sanFrame) isArgs(v ssa.Value) bool {
+	if fr.role[v] == "args" {
+		return true
+	}
+	return fr.top && len(fr.fn.Params) > 0 && v == ssa.Value(fr.fn.Params[len(fr.fn.Params)-1])
+}
+
+// sub: the frame of helper h called with args from fr (nil if no argument plays a role).
+func (fr *sanFrame) sub(h *ssa.Function, args []ssa.Value) *sanFrame {
+	if h == nil || h.Blocks == nil || h.Pkg != fr.fn.Pkg || fr.depth >= 3 {
+		return nil
+	}
+	n := &sanFrame{fn: h, role: map[ssa.Value]string{}, depth: fr.depth + 1}
+	any := false
+	for i, prm := range h.Params {
+		if i >= len(args) {
+			continue
 		}
-		return false
+		switch a := args[i]; {
+		case fr.isArgs(a):
+			n.role[prm], any = "args", true
+		case fr.isArg0I(a):
+			n.role[prm], any = "arg0i", true
+		case fr.isStr(a):
+			n.role[prm], any = "str", true
+		}
 	}
-	a := c.Common().Args[0]
-	u, ok := a.(*ssa.UnOp)
-	if !ok {
-		return false
+	if !any {
+		return nil
 	}
-	ia, ok := u.X.(*ssa.IndexAddr)
-	if !ok || len(fn.Params) == 0 || ia.X != ssa.Value(fn.Params[len(fn.Params)-1]) {
-		return false
+	return n
+}
+
+// isArg0I: v == safehtmlutil.Indirect(args[0]), possibly computed by a helper.
+func (fr *sanFrame) isArg0I(v ssa.Value) bool {
+	v = unIface(v)
+	if fr.role[v] == "arg0i" {
+		return true
 	}
-	k, ok := constInt(ia.Index)
-	return ok && k == 0
+	if c, ok := isCallTo(v, pkgUtil+".Indirect"); ok {
+		u, ok := c.Common().Args[0].(*ssa.UnOp)
+		if !ok {
+			return false
+		}
+		ia, ok := u.X.(*ssa.IndexAddr)
+		if !ok || !fr.isArgs(ia.X) {
+			return false
+		}
+		k, ok := constInt(ia.Index)
+		return ok && k == 0
+	}
+	// a helper applied to the argument list, each of whose returns is nil (nothing to assert on) or Indirect(args[0])
+	if call, isCall := v.(*ssa.Call); isCall {
+		h := staticCallee(call.Common())
+		if h == nil || h.Signature.Results().Len() != 1 {
+			return false
+		}
+		sf := fr.sub(h, call.Common().Args)
+		if sf == nil {
+			return false
+		}
+		n := 0
+		for _, ret := range Returns(h) {
+			rv := ret.Results[0]
+			if k, isK := rv.(*ssa.Const); isK && k.Value == nil {
+				continue
+			}
+			if !sf.isArg0I(rv) {
+				return false
+			}
+			n++
+		}
+		return n > 0
+	}
+	return false
+}
+
+func (fr *sanFrame) isStr(v ssa.Value) bool {
+	if fr.role[v] == "str" {
+		return true
+	}
+	c, ok := isCallTo(v, pkgUtil+".Stringify")
+	return ok && fr.isArgs(c.Common().Args[0])
+}
+
+// indirectArg0 / stringifyAllArgs: the top-level forms (kept for other rules).
+func indirectArg0(fn *ssa.Function, v ssa.Value) bool {
+	return (&sanFrame{fn: fn, role: map[ssa.Value]string{}, top: true}).isArg0I(v)
 }
 
 func stringifyAllArgs(fn *ssa.Function, v ssa.Value) bool {
-	c, ok := isCallTo(v, pkgUtil+".Stringify")
-	return ok && len(fn.Params) > 0 && c.Common().Args[0] == ssa.Value(fn.Params[len(fn.Params)-1])
+	return (&sanFrame{fn: fn, role: map[ssa.Value]string{}, top: true}).isStr(v)
+}
+
+// provenError: v is certainly a non-nil error.
+func provenError(v ssa.Value) bool {
+	if _, ok := isCallTo(v, "fmt.Errorf"); ok {
+		return true
+	}
+	if _, ok := isCallTo(v, "errors.New"); ok {
+		return true
+	}
+	// a package-level error value initialised once by one of these
+	if u, ok := v.(*ssa.UnOp); ok {
+		if g, ok := u.X.(*ssa.Global); ok && g.Pkg != nil {
+			var only *ssa.Store
+			n := 0
+			for _, mem := range g.Pkg.Members {
+				f, ok := mem.(*ssa.Function)
+				if !ok {
+					continue
+				}
+				for _, b := range f.Blocks {
+					for _, in := range b.Instrs {
+						if st, ok := in.(*ssa.Store); ok && st.Addr == ssa.Value(g) {
+							n++
+							only = st
+						}
+					}
+				}
+			}
+			if n == 1 && only.Parent().Name() == "init" {
+				return provenError(unIface(only.Val))
+			}
+		}
+	}
+	return false
 }
 
 func summariseSanitizer(p *Program, pv *Prov, fn *ssa.Function) *sanSummary {
@@ -113,24 +204,33 @@ func summariseSanitizer(p *Program, pv *Prov, fn *ssa.Function) *sanSummary {
 		s.Problems = append(s.Problems, "no body")
 		return s
 	}
-	// all assertions to safe types
 	asserted := map[string]bool{}
+	summariseSanFrame(p, pv, &sanFrame{fn: fn, role: map[ssa.Value]string{}, top: true}, s, asserted)
+	s.Asserts = sortedKeys(asserted)
+	return s
+}
+
+func summariseSanFrame(p *Program, pv *Prov, fr *sanFrame, s *sanSummary, asserted map[string]bool) {
+	fn := fr.fn
+	// all assertions to safe types
 	for _, b := range fn.Blocks {
 		for _, in := range b.Instrs {
 			if ta, ok := in.(*ssa.TypeAssert); ok {
 				if n, ok := safeTypeName(ta.AssertedType); ok {
 					asserted[n] = true
-					if !indirectArg0(fn, ta.X) {
+					if !fr.isArg0I(ta.X) {
 						s.Problems = append(s.Problems, fmt.Sprintf("assertion to %s is not applied to Indirect(args[0]) (%s)", n, p.Pos(ta.Pos())))
 					}
 				}
 			}
 		}
 	}
-	s.Asserts = sortedKeys(asserted)
 	for _, ret := range Returns(fn) {
 		pos := p.Pos(ret.Pos())
-		if len(ret.Results) == 1 {
+		if len(ret.Results) == 0 {
+			continue
+		}
+		if len(ret.Results) == 1 && fr.top {
 			// (string) sanitizers: comment sanitizer, normalizers
 			if k, ok := constString(ret.Results[0]); ok {
 				s.Returns = append(s.Returns, sanReturn{Kind: "const", Const: k, Pos: pos})
@@ -139,24 +239,69 @@ func summariseSanitizer(p *Program, pv *Prov, fn *ssa.Function) *sanSummary {
 			}
 			continue
 		}
-		if k, ok := ret.Results[1].(*ssa.Const); !ok || k.Value != nil {
-			_, isErrorf := isCallTo(ret.Results[1], "fmt.Errorf")
-			val, isC := constString(ret.Results[0])
-			if isErrorf && isC && val == "" {
-				s.Returns = append(s.Returns, sanReturn{Kind: "error", Pos: pos})
-			} else {
-				s.Returns = append(s.Returns, sanReturn{Kind: "other", Pos: pos, Desc: "error return with a value or an unproven error"})
+		if len(ret.Results) >= 2 {
+			ev := unIface(ret.Results[1])
+			if k, ok := ev.(*ssa.Const); !ok || k.Value != nil {
+				val, isC := constString(ret.Results[0])
+				// the error of a helper handed on together with its value: the helper's returns say what happens
+				if ex, ok := ev.(*ssa.Extract); ok {
+					if call, ok := ex.Tuple.(*ssa.Call); ok {
+						if ex0, ok := ret.Results[0].(*ssa.Extract); ok && ex0.Tuple == ex.Tuple {
+							if sf := fr.sub(staticCallee(call.Common()), call.Common().Args); sf != nil {
+								summariseSanFrame(p, pv, sf, s, asserted)
+								continue
+							}
+						}
+						if isC && val == "" && certainlyNonNil(ev, ret.Block()) {
+							s.Returns = append(s.Returns, sanReturn{Kind: "error", Pos: pos})
+							continue
+						}
+					}
+				}
+				if (provenError(ev) || certainlyNonNil(ev, ret.Block())) && isC && val == "" {
+					s.Returns = append(s.Returns, sanReturn{Kind: "error", Pos: pos})
+				} else {
+					s.Returns = append(s.Returns, sanReturn{Kind: "other", Pos: pos, Desc: "error return with a value or an unproven error"})
+				}
+				continue
 			}
-			continue
 		}
 		v := ret.Results[0]
+		// the value of a helper (under a nil error of it): what the helper returns
+		if hv := v; true {
+			var call *ssa.Call
+			if ex, ok := hv.(*ssa.Extract); ok && ex.Index == 0 {
+				call, _ = ex.Tuple.(*ssa.Call)
+			} else if c, ok := hv.(*ssa.Call); ok {
+				call = c
+			}
+			if call != nil {
+				if h := staticCallee(call.Common()); h != nil && h.Pkg == fn.Pkg && h.Blocks != nil {
+					if sf := fr.sub(h, call.Common().Args); sf != nil && (h.Signature.Results().Len() == 1 || errChecked(call, ret.Block())) {
+						before := len(s.Returns)
+						summariseSanFrame(p, pv, sf, s, asserted)
+						if h.Signature.Results().Len() >= 2 {
+							// the caller reaches this return only with a nil error: the helper's error returns were handled there
+							kept := s.Returns[:before]
+							for _, r := range s.Returns[before:] {
+								if r.Kind != "error" {
+									kept = append(kept, r)
+								}
+							}
+							s.Returns = kept
+						}
+						continue
+					}
+				}
+			}
+		}
 		// (T).String(x), x = extract#0 of assert(Indirect(args[0])).(T) under ok
 		if c, ok := v.(*ssa.Call); ok {
 			if f := staticCallee(c.Common()); f != nil && f.Name() == "String" && f.Signature.Recv() != nil {
 				if tn, isSafe := safeTypeName(f.Signature.Recv().Type()); isSafe {
 					x := c.Common().Args[0]
 					if ex, ok := x.(*ssa.Extract); ok && ex.Index == 0 {
-						if ta, ok := ex.Tuple.(*ssa.TypeAssert); ok && ta.CommaOk && types.Identical(ta.AssertedType, f.Signature.Recv().Type()) && indirectArg0(fn, ta.X) {
+						if ta, ok := ex.Tuple.(*ssa.TypeAssert); ok && ta.CommaOk && types.Identical(ta.AssertedType, f.Signature.Recv().Type()) && fr.isArg0I(ta.X) {
 							guarded := false
 							for _, g := range GuardsOf(ret.Block()) {
 								if e2, ok := g.Cond.(*ssa.Extract); ok && g.Pol && e2.Tuple == ssa.Value(ta) && e2.Index == 1 {
@@ -171,7 +316,7 @@ func summariseSanitizer(p *Program, pv *Prov, fn *ssa.Function) *sanSummary {
 					}
 					// escaped / sanitized forms
 					if inner, ok := x.(*ssa.Call); ok {
-						if g := staticCallee(inner.Common()); g != nil && len(inner.Common().Args) == 1 && stringifyAllArgs(fn, inner.Common().Args[0]) {
+						if g := staticCallee(inner.Common()); g != nil && len(inner.Common().Args) == 1 && fr.isStr(inner.Common().Args[0]) {
 							switch fnName(g) {
 							case modulePath + ".HTMLEscaped":
 								s.Returns = append(s.Returns, sanReturn{Kind: "escaped", Pos: pos})
@@ -189,7 +334,7 @@ func summariseSanitizer(p *Program, pv *Prov, fn *ssa.Function) *sanSummary {
 			}
 			// Stringify(v) with v the type-switch operand, under the case's assertions
 			if sc, ok := isCallTo(v, pkgUtil+".Stringify"); ok {
-				if elems, ok := variadicArgs(sc.Common().Args[0]); ok && len(elems) == 1 && indirectArg0(fn, unIface(elems[0])) {
+				if elems, ok := variadicArgs(sc.Common().Args[0]); ok && len(elems) == 1 && fr.isArg0I(unIface(elems[0])) {
 					operand := unIface(elems[0])
 					var ts []string
 					okAll := allPathsGuard(pv, ret.Block(), func(a Atom) bool {
@@ -216,26 +361,26 @@ func summariseSanitizer(p *Program, pv *Prov, fn *ssa.Function) *sanSummary {
 						continue
 					}
 				}
-				// enum: Stringify(args...) under set[input]
-				if stringifyAllArgs(fn, v) {
-					member := false
-					for _, g := range GuardsOf(ret.Block()) {
-						if lk, ok := g.Cond.(*ssa.Lookup); ok && g.Pol && lk.Index == v {
-							member = true
-						}
-					}
-					if !member {
-						// another spelling of a membership test (==, switch): decided by language
-						_, member = enumWordsOf(p, fn)
-					}
-					if member {
-						s.Returns = append(s.Returns, sanReturn{Kind: "member", Pos: pos})
-						continue
-					}
-					s.Returns = append(s.Returns, sanReturn{Kind: "other", Pos: pos, Desc: "returns the stringified input unchanged"})
-					continue
+			}
+		}
+		// enum: Stringify(args...) under set[input]
+		if fr.isStr(v) {
+			member := false
+			for _, g := range GuardsOf(ret.Block()) {
+				if lk, ok := g.Cond.(*ssa.Lookup); ok && g.Pol && lk.Index == v {
+					member = true
 				}
 			}
+			if !member && fr.top {
+				// another spelling of a membership test (==, switch): decided by language
+				_, member = enumWordsOf(p, fn)
+			}
+			if member {
+				s.Returns = append(s.Returns, sanReturn{Kind: "member", Pos: pos})
+				continue
+			}
+			s.Returns = append(s.Returns, sanReturn{Kind: "other", Pos: pos, Desc: "returns the stringified input unchanged"})
+			continue
 		}
 		if k, ok := constString(v); ok {
 			s.Returns = append(s.Returns, sanReturn{Kind: "const", Const: k, Pos: pos})
@@ -243,7 +388,6 @@ func summariseSanitizer(p *Program, pv *Prov, fn *ssa.Function) *sanSummary {
 		}
 		s.Returns = append(s.Returns, sanReturn{Kind: "other", Pos: pos, Desc: pv.Of(v).String()})
 	}
-	return s
 }
 
 // context oracle (from the statement and the package documentation table):
